@@ -27,6 +27,9 @@ var l1Table = []struct{ pkg, typ, field, guard string }{
 	{"rpc/socket", "conn", "results", "lock"},
 	{"rpc/udp", "conn", "results", "lock"},
 	{"rpc/websocket", "conn", "results", "lock"},
+	{"rpc/socket", "conn", "closed", "lock"},
+	{"rpc/udp", "conn", "closed", "lock"},
+	{"rpc/websocket", "conn", "closed", "lock"},
 	{"rpc/socket", "Transport", "conns", "lock"},
 	{"rpc/udp", "Transport", "conns", "lock"},
 	{"rpc/websocket", "Transport", "conns", "lock"},
